@@ -396,10 +396,13 @@ func runKillHashing(sc *Scenario, out *Out) {
 		out.Note = err.Error()
 		return
 	}
+	// the piece that will be hashed is not the first one: the deletion sweeps the pieces in order and waits for it,
+	// while blocks keep arriving for the pieces it has already visited
+	const hp = 2
 	for b := 0; b < ps; b += 16384 {
-		t.Pieces.AddData(0, uint32(b), content.Range(seed, int64(b), 16384), 1)
+		t.Pieces.AddData(hp, uint32(b), content.Range(seed, int64(hp*ps+b), 16384), 1)
 	}
-	t.Pieces.AddData(2, 0, content.Range(seed, 2*ps, 16384), 1)
+	t.Pieces.AddData(3, 0, content.Range(seed, 3*ps, 16384), 1)
 	hashing, release := make(chan struct{}, 1), make(chan struct{})
 	piece.VerifYield = func(point string, index uint32) {
 		if point == "Finalise.hash" {
@@ -410,7 +413,7 @@ func runKillHashing(sc *Scenario, out *Out) {
 	defer func() { piece.VerifYield = nil }()
 	fin := make(chan struct{})
 	go func() {
-		t.Pieces.Finalise(0, t.PieceHashes[0])
+		t.Pieces.Finalise(hp, t.PieceHashes[hp])
 		close(fin)
 	}()
 	select {
@@ -434,6 +437,10 @@ func runKillHashing(sc *Scenario, out *Out) {
 			viol("kill-returns-before-release", fmt.Sprintf("Kill has returned %s and %d bytes of piece memory are still allocated", when, a))
 		}
 	}
+	// blocks for pieces 0 and 1 arrive while the deletion waits for the hash
+	time.Sleep(150 * time.Millisecond)
+	t.Pieces.AddData(0, 0, content.Range(seed, 0, 16384), 1)
+	t.Pieces.AddData(1, 16384, content.Range(seed, ps+16384, 16384), 1)
 	returned := false
 	select {
 	case err := <-killed:
@@ -441,7 +448,7 @@ func runKillHashing(sc *Scenario, out *Out) {
 		if err == nil {
 			check("while a piece was still being hashed")
 		}
-	case <-time.After(400 * time.Millisecond):
+	case <-time.After(250 * time.Millisecond):
 	}
 	close(release)
 	if !returned {
